@@ -139,7 +139,8 @@ func (r *reference) resolveRef(cfg *Config, opts *options) (value, error) {
 }
 
 func (r *reference) resolveEnv(cfg *Config, opts *options) (string, parse.Config, error) {
-	var err error
+	// without any resolver the reference stays unresolved
+	var err error = raisePathErr(ErrMissing, nil, "", r.Path.String())
 
 	if len(opts.resolvers) > 0 {
 		key := r.Path.String()
